@@ -16,9 +16,13 @@ ops:
   fp G s t n onat*        → ok path=…                            (predecessor array of the csgraph search)
   dist G s                → ok onat*                             (reference distances; G may be the unweighted copy)
   mst G                   → ok weight count ncomp
+  mste G                  → ok w:i-j,…                           (the edges the Kruskal reference chooses, in order)
+  levels G r              → ok max=…;levels=…|…;counts=…;nleaves=… | err depth   (levels 0 … max+1)
 -/
 import MenpoModel.Core.Codec
 import MenpoModel.Core.C14Graph
+import MenpoModel.Core.C14Ext
+import MenpoModel.Core.C14Kruskal
 
 namespace MenpoModel.Drive.C14
 open MenpoModel.Codec MenpoModel.C14
@@ -123,6 +127,18 @@ def step (toks : List String) : String :=
   | "mst" :: rest => match runP pGraph rest with
     | none => "bad-op"
     | some (_, g) => let (w, c) := g.kruskal; s!"ok {w} {c} {g.nComponents}"
+  | "mste" :: rest => match runP pGraph rest with
+    | none => "bad-op"
+    | some (_, g) =>
+      let es := g.kruskalEdges
+      if es.isEmpty then "ok -" else "ok " ++ ",".intercalate (es.map fun e => s!"{e.1}:{e.2.1}-{e.2.2}")
+  | "levels" :: rest => match runP (do let g ← pGraph; let r ← pNat; pure (g, r)) rest with
+    | none => "bad-op"
+    | some ((_, g), r) => match g.maximumDepth r with
+      | none => "err depth"
+      | some M =>
+        let ks := List.range (M + 2)
+        s!"ok max={M};levels={fLL (ks.map (g.verticesAtDepth r))};counts={fL (ks.map (g.nVerticesAtDepth r))};nleaves={g.nLeaves}"
   | _ => "bad-op"
 
 end MenpoModel.Drive.C14
